@@ -2,6 +2,7 @@ import KrroodVerif.Sexp
 import KrroodVerif.Model.Eql
 import KrroodVerif.Model.EqlTrace
 import KrroodVerif.Model.EqlTraceQ
+import KrroodVerif.Model.Quantifier
 import KrroodVerif.Drive.EqlParse
 namespace KrroodVerif.Drive.C10
 open KrroodVerif KrroodVerif.Eql KrroodVerif.Drive.EqlParse
@@ -44,6 +45,17 @@ def run (s : Sexp) : String :=
   -- building is a pure function of the description in every model: no event is performed
   if let .list [.atom "silent", _] := s then "model=silent\tspec=silent\ttrig=" else
   if let .list (.atom "flat" :: items) := s then (runFlat items).getD "error=bad-case" else
+  -- `(qpulls <kind> v n)`: a result-count constraint over a lazily produced n-element domain, fully consumed: the
+  -- evaluation stops taking elements with the one that reveals an exceeded upper bound (`Quant.consumed`)
+  if let .list [.atom "qpulls", .atom kind, v, n] := s then
+    (match v.asNat?, n.asNat? with
+     | some v, some n =>
+       let c : Option Quant.Constraint := match kind with
+         | "exactly" => some (.exactly v) | "atLeast" => some (.atLeast v) | "atMost" => some (.atMost v)
+         | "the" => some (.exactly 1) | _ => none
+       let out := s!"pulls={Quant.consumed c (List.range n)}"
+       s!"model={out}\tspec={out}\ttrig="
+     | _, _ => "error=bad-case") else
   match parseCase s with
   | none => "error=bad-case"
   | some (w, q) =>
